@@ -119,25 +119,48 @@ def startsWithItem (l : Str) : Bool :=
 
 def isBlankLine (l : Str) : Bool := l.all (fun c => c == ' ' || c == '\t' || c == '\n' || c == '\r' || c == '\x0b' || c == '\x0c')
 
-/-- `add_note`: index of the line that is replaced by the note text -/
-def insertionIndex (lines : List Str) : Nat :=
-  let rec go : Nat → Bool → Nat → List Str → Nat
-    | _, _, start, [] => start
-    | i, inNote, start, l :: rest =>
-      let inNote := inNote || startsWithItem l
-      if inNote && isBlankLine l then go (i + 1) false i rest else go (i + 1) inNote start rest
-  go 0 false (lines.length - 1) lines
+/-- `add_note`: (index of the blank line that ends the last block, or the last line; was an item seen?;
+is the scan still inside a note at the end of the page?) -/
+def insertionIndex (lines : List Str) : Nat × Bool × Bool :=
+  let rec go : Nat → Bool → Bool → Nat → List Str → Nat × Bool × Bool
+    | _, inNote, found, start, [] => (start, found, inNote)
+    | i, inNote, found, start, l :: rest =>
+      let item := startsWithItem l
+      let inNote := inNote || item
+      let found := found || item
+      if inNote && isBlankLine l then go (i + 1) false found i rest else go (i + 1) inNote found start rest
+  go 0 false false (lines.length - 1) lines
 
-/-- `FileManager.add_note` on `text.split("\n")`; `noteLines` = `note.to_string().split("\n")` -/
+/-- `FileManager.add_note` on `text.split("\n")`; `noteLines` = `note.to_string().split("\n")` (ends with `""`) -/
 def addNote (lines noteLines : List Str) : List Str :=
-  let k := insertionIndex lines
-  lines.take k ++ noteLines ++ lines.drop (k + 1)
+  let (k, found, inNote) := insertionIndex lines
+  let target := lines.getD k []
+  if !isBlankLine target then
+    -- no trailing newline: append (after an empty line unless the page ends with a note)
+    lines.take (k + 1) ++ (if inNote then [] else [[]]) ++ noteLines
+  else if !found && k > 0 && !isBlankLine (lines.getD (k - 1) []) then lines.take (k + 1) ++ noteLines   -- header only
+  else lines.take k ++ noteLines ++ lines.drop (k + 1)
 
 def hasInfixStr (pat s : Str) : Bool := (List.range (s.length + 1)).any (fun i => pat.isPrefixOf (s.drop i))
 
-/-- `FileManager.delete_note`: first line containing `" ZID "`, then `len(body.split("\n"))` lines -/
+/-- does `line` carry `zid` as its own identity: `^\s*[-ox~<>] (P[0-9] )?([0-9]{6} )?ZID( |$)` -/
+def isFirstLineOf (zid line : Str) : Bool :=
+  let l := line.dropWhile (fun c => c == ' ' || c == '\t' || c == '\x0b' || c == '\x0c' || c == '\r' || c == '\n')
+  match l with
+  | k :: ' ' :: rest =>
+    if ['-', 'o', 'x', '~', '<', '>'].contains k then
+      let rest := match rest with
+        | 'P' :: d :: ' ' :: r => if isDigit d then r else rest
+        | _ => rest
+      let rest := if (rest.take 6).length == 6 && (rest.take 6).all isDigit && rest.getD 6 'x' == ' ' then rest.drop 7 else rest
+      zid.isPrefixOf rest && (rest.length == zid.length || rest.getD zid.length 'x' == ' ')
+    else false
+  | _ => false
+
+/-- `FileManager.delete_note`: the first line that carries the ZID in identity position, then
+`len(body.split("\n"))` lines -/
 def deleteNote (lines : List Str) (zid : Str) (bodyLineCount : Nat) : Option (List Str) :=
-  match lines.findIdx? (fun l => hasInfixStr ([' '] ++ zid ++ [' ']) l) with
+  match lines.findIdx? (isFirstLineOf zid) with
   | none => none
   | some i => some (lines.take i ++ lines.drop (i + bodyLineCount))
 
